@@ -130,7 +130,10 @@ def gen_e2e(ctx, rng):
     opt = rng.choice(OPTIONS)
     kw = {"idx_constrained": np.array(L, dtype=int), "n_sensors": N, "n_const_sensors": s, "all_sensors": A,
           "constraint_option": opt}
-    return OptCase(B, "gqr", gqr=kw, meta={"opt": opt, "N": N, "s": s, "L": L})
+    meta = {"opt": opt, "N": N, "s": s, "L": L}
+    if opt == "predetermined" and rng.random() < 0.4:
+        meta["omit_all_sensors"] = True
+    return OptCase(B, "gqr", gqr=kw, meta=meta)
 
 
 def counts_ok(opt, ranking, L, N, s):
